@@ -328,6 +328,18 @@ func Readlink(name string) (string, error) {
 	return n.Target, nil
 }
 
+// inheritGroup: an entry created below a set-group-ID directory gets that directory's group, and a
+// new directory also inherits the bit (Linux semantics).
+func inheritGroup(rp string, n *Inode) {
+	if p := nodes[parentOf(rp)]; p != nil && rp != "/" {
+		sg := (p.Perm >> 10) & 1
+		n.Gid = sg*p.Gid + (1-sg)*n.Gid
+		if n.Kind == KDir {
+			n.Perm = n.Perm | sg<<10
+		}
+	}
+}
+
 func touchParent(rp string) {
 	if p := nodes[parentOf(rp)]; p != nil {
 		p.Mtime = now()
@@ -343,7 +355,9 @@ func Mkdir(name string, perm os.FileMode) error {
 	if n != nil {
 		return pathErr("mkdir", name, syscall.EEXIST)
 	}
-	nodes[rp] = newInode(KDir, unixPerm(perm))
+	nd := newInode(KDir, unixPerm(perm))
+	inheritGroup(rp, nd)
+	nodes[rp] = nd
 	touchParent(rp)
 	logOp("create", rp)
 	return nil
@@ -491,6 +505,7 @@ func Symlink(oldname, newname string) error {
 	}
 	s := newInode(KSymlink, 0777)
 	s.Target = oldname
+	inheritGroup(rp, s)
 	nodes[rp] = s
 	touchParent(rp)
 	logOp("create", rp)
@@ -643,6 +658,7 @@ func Mknod(path string, mode uint32, dev int) error {
 	if kind == KChar || kind == KBlock {
 		nd.Rdev = uint64(dev)
 	}
+	inheritGroup(rp, nd)
 	nodes[rp] = nd
 	touchParent(rp)
 	logOp("create", rp)
@@ -724,6 +740,7 @@ func OpenFile(name string, flag int, perm os.FileMode) (*os.File, error) {
 			return nil, pathErr("open", name, syscall.ENOENT)
 		}
 		n = newInode(KFile, unixPerm(perm))
+		inheritGroup(rp, n)
 		nodes[rp] = n
 		touchParent(rp)
 		logOp("create", rp)
